@@ -336,7 +336,10 @@ def prove_closed(src_root, ex: Explorer):
         b.attrs['retry_task'] = A.TaskVal(it.aio, None, 'eve-retry')
         tasks.append(b.attrs['retry_task'])
         conn = Obj(cls(it, 'network.connection', 'ServerConnection' if server else 'PeerConnection'))
-        ev = Stub('event', connection=conn, state=enum(it, 'network.connection', 'ConnectionState', st))
+        # the tracking state is server-derived: it is dropped whatever the reason of the close (also a disconnect the client asked for)
+        reasons = cls(it, 'network.connection', 'CloseReason').enum_members
+        ev = Stub('event', connection=conn, state=enum(it, 'network.connection', 'ConnectionState', st),
+                  close_reason=reasons[ctx.choose(len(reasons), 'close-reason')])
         run(it, it.getattr(w['mgr'], '_on_state_changed'), ev)
         if server and st == 'CLOSED':
             ctx.prove('C15.closed.drop', all(t.cancel_requested and t.awaited and t.done is True for t in tasks),
